@@ -198,6 +198,7 @@ pub fn run(prop: &'static str, tier: Tier) -> ! {
     if let Err(e) = bridge::tabulate_atoms(&["\\w".to_string()], &mut tables) {
         // The opaque atom cannot even be tabulated through the public API.
         run.violation(Violation { key: String::new(), summary: format!("cannot tabulate \\w through the public API: {e}"), replay: json!({"pattern": "\\w", "error": e}) });
+        run.finish("model_checking", Map::new(), &[]);
     }
     let do02 = prop == "C02";
     let do03 = prop == "C03";
